@@ -15,6 +15,7 @@ CONSTANTS
   LoadLocks = TRUE
   SaveLocks = TRUE
   TruncFirst = FALSE
+  UnlinkLockWhenFinal = FALSE
   StatBeforeLock = FALSE
   FreshUpdates = FALSE
   Reread = FALSE
